@@ -119,7 +119,7 @@ fn main() {
         let rate = n(0) as u32;
         let slip = n(2) as usize;
         let kind = f[4];
-        let edns = f[5] == "1" || f[4].starts_with('v');
+        let edns = f[5] == "1" || forces_edns(f[4]);
         let mode = n(6);
         let seed = n(7);
         let bursts: Vec<usize> = f[8].split(',').map(|b| b.parse().unwrap()).collect();
